@@ -34,7 +34,8 @@ VALID_INPUT_FAMILIES = ("discriminators",)
 KIND = {"jsonschema": "jsonschema", "openapi": "openapi", "cue": "cue", "pipeline": "whole", "parameters": "whole", "passes": "passes",
         "cyclepasses": "passes", "veneers": "veneers", "sequences": "veneers", "cycleveneers": "veneers", "veneerpaths": "veneers",
         "ifexpr": "whole"}
-TIMEOUT_MS = 20000
+TIMEOUT_MS = 20000             # CPU time of the worker process per run (wall time only bounds a blocked run: 15 x)
+CONFIRM_TIMEOUT_MS = 120000    # budget of the confirmation run of a timeout (alone, small stack cap)
 NPROC = 12
 BUILDER_LANGS = ("go", "python", "java", "typescript", "php")
 ALL_ON = {
@@ -379,7 +380,7 @@ def _run_shard(ctx, jobs, cwd, timeout_ms, maxstack=16):
         p = subprocess.Popen([ctx.worker, "c04-run", "-maxstack", str(maxstack)], stdin=subprocess.PIPE, stdout=subprocess.PIPE, stderr=subprocess.PIPE,
                              env=ctx.goenv(), cwd=cwd)
         try:
-            out, err = p.communicate(inp.encode(), timeout=len(todo) * (timeout_ms / 1000.0 + 5) + 60)
+            out, err = p.communicate(inp.encode(), timeout=min(1000000, len(todo) * (15 * timeout_ms / 1000.0 + 5) + 60))
         except subprocess.TimeoutExpired:
             p.kill()
             out, err = p.communicate()
@@ -438,9 +439,8 @@ def run_jobs(ctx, jobs, cwd, nproc=NPROC, timeout_ms=TIMEOUT_MS):
     for j in jobs:
         if res[j["id"]]["outcome"] == "timeout":
             hung[signature(res[j["id"]])[0]].append(j)
-    # confirmations run side by side (each alone in its own worker process): two inputs per signature
-    todo = [("deep", sig, j) for sig, js in sorted(deep.items()) for j in js[:2]] + \
-           [("hung", sig, j) for sig, js in sorted(hung.items()) for j in js[:2]]
+    # Overflow confirmations run side by side (each alone in its own worker process): two inputs per signature.
+    todo = [("deep", sig, j) for sig, js in sorted(deep.items()) for j in js[:2]]
 
     def confirm(item):
         kind, sig, j = item
@@ -448,20 +448,35 @@ def run_jobs(ctx, jobs, cwd, nproc=NPROC, timeout_ms=TIMEOUT_MS):
     confirmed = collections.Counter()
     with concurrent.futures.ThreadPoolExecutor(max_workers=max(1, min(nproc, len(todo) or 1))) as ex:
         for (kind, sig, j), r2 in ex.map(confirm, todo):
-            same = (r2["outcome"] == "timeout") if kind == "hung" else \
-                   (r2["outcome"] == "crash" and crash_info(r2.get("stderr", ""))[0] == "stack-overflow")
-            if same:
+            if r2["outcome"] == "crash" and crash_info(r2.get("stderr", ""))[0] == "stack-overflow":
                 confirmed[sig] += 1
                 r2["confirmed"] = True
             else:
                 r2["first_run_differed"] = res[j["id"]]["outcome"]
             res[j["id"]] = r2
+    # A run that used up its CPU budget is run again ALONE (nothing else of this check is running any more), with a six times larger
+    # budget and the small stack cap: what that run ends in is the verdict - an unbounded recursion overflows the stack (the same
+    # signature as when it overflowed within the first budget), a slow but finite run returns, and only a run that is still going
+    # is a `timeout`. Budgets are CPU time of the worker process, so none of this depends on the load of the machine.
+    for sig, js in sorted(hung.items()):
+        for j in js[:1]:
+            # the long budget is only spent where the sampled stack shows a recursing cog function (it may still end in the
+            # overflow); a run that loops without recursion gets the same budget a second time ("timed out twice")
+            rec_ = has_recursion(res[j["id"]].get("stack") or [])
+            r2 = _run_shard(ctx, [j], cwd, CONFIRM_TIMEOUT_MS if rec_ else timeout_ms, maxstack=16)[j["id"]]
+            if r2["outcome"] == "timeout":
+                confirmed[sig] += 1
+                r2["confirmed"] = True
+            else:
+                r2["first_run_differed"] = "timeout"
+            res[j["id"]] = r2
     # a signature nothing confirmed: its remaining inputs are run again too (rare); confirmed hangs: the other inputs of the
     # signature are recorded as `timeout-once` (neither a regular outcome nor a violation), overflows stay as observed
     for sig, js in list(deep.items()) + list(hung.items()):
-        for j in js[2:]:
+        for j in (js[1:] if sig in hung else js[2:]):
             if confirmed[sig] == 0:
-                res[j["id"]] = _run_shard(ctx, [j], cwd, timeout_ms, maxstack=64)[j["id"]]
+                big = res[j["id"]]["outcome"] == "timeout"
+                res[j["id"]] = _run_shard(ctx, [j], cwd, CONFIRM_TIMEOUT_MS if big else timeout_ms, maxstack=16 if big else 64)[j["id"]]
             elif res[j["id"]]["outcome"] == "timeout":
                 res[j["id"]]["outcome"] = "timeout-once"
     return res
@@ -527,6 +542,12 @@ def hang_frame(frames):
     return inner[-1] if inner else cog[0]
 
 
+def has_recursion(frames):
+    names = [cog_frame([f], _nested=True) for f in frames]
+    cnt = collections.Counter(n for n in names if n != "outside-cog")
+    return bool(cnt) and max(cnt.values()) >= 3
+
+
 def panic_class(msg):
     m = msg or ""
     if "index out of range" in m:
@@ -586,8 +607,11 @@ def signature(rec):
     if rec["outcome"] == "crash":
         cls, frames = crash_info(rec.get("stderr", ""))
         return "C04/%s/%s" % (recursing_frame(frames) if cls == "stack-overflow" else cog_frame(frames), cls), (rec.get("stderr", "")[:300])
+    if rec["outcome"] == "timeout" and has_recursion(rec.get("stack") or []):
+        # still recursing when even the long budget ran out: the unbounded recursion it is, named like the overflow it would end in
+        return "C04/%s/stack-overflow" % hang_frame(rec.get("stack") or []), "recursion still going after %d ms of CPU time" % CONFIRM_TIMEOUT_MS
     if rec["outcome"] == "timeout":
-        return "C04/%s/timeout" % hang_frame(rec.get("stack") or []), "no result within %d ms, twice" % TIMEOUT_MS
+        return "C04/%s/timeout" % hang_frame(rec.get("stack") or []), "no result within %d ms of CPU time, nor within %d ms when run again alone" % (TIMEOUT_MS, CONFIRM_TIMEOUT_MS)
     return None, None
 
 
@@ -743,8 +767,8 @@ def run(ctx):
         per_fam[c["fam"]][rec["outcome"]] += 1
         per_class[c["class"].split(":")[0]][rec["outcome"]] += 1
         per_lang[stage][rec["outcome"]] += 1
-        if rec.get("ms", 0) > 5000:
-            slow.append((jid, rec["ms"]))
+        if rec.get("cpu_ms", 0) > 5000:
+            slow.append((jid, rec["cpu_ms"]))
         sig, what = signature(rec)
         if sig:
             # witness class: documents that are VALID by construction (unions of struct references with constant fields of
@@ -774,8 +798,11 @@ def run(ctx):
             rec = res[jid]
             cid, stage = jid.split("|")
             c = by_cid[cid]
+            if rec.get("first_run_differed") == "timeout" and rec["outcome"] in ("files", "error"):
+                # used up the first budget, returned within the six times larger one when run alone: slow but finite (counted below)
+                rec = dict(rec, cpu_ms=0)
             f.write(json.dumps({"case": cid, "fam": c["fam"], "class": c["class"], "stage": stage, "outcome": rec["outcome"],
-                                "ms": int(rec.get("ms", 0))}, separators=(",", ":")) + "\n")
+                                "ms": int(rec.get("cpu_ms", rec.get("ms", 0)))}, separators=(",", ":")) + "\n")
     rt = ctx.run_tlc("MalformedTrace", "MalformedTrace.cfg", workers=1, timeout=1800, files={"trace.ndjson": tpath})
     consumed = None
     for line in open(rt["out"], errors="replace"):
@@ -803,8 +830,10 @@ def run(ctx):
             vac.append("language:" + lang)
     if outcome["files"] == 0 or outcome["error"] == 0:
         vac.append("both regular outcomes (files, error) must occur")
-    if vac and not os.environ.get("VERIF_C04_FAMILIES"):
+    if vac and not os.environ.get("VERIF_C04_FAMILIES") and not ctx.failures:
         raise core.Inconclusive("vacuous: %s" % vac)
+    if vac and ctx.failures:      # observed violations are never swallowed by the vacuity gate (audit class 15)
+        ctx.notes.append("vacuity gate not met (%s) - reported with the violations instead of exit 2" % vac[:6])
     samples = []
     for jid in order:
         cid, stage = jid.split("|")
@@ -822,6 +851,12 @@ def run(ctx):
     tp = templates_part.run_part(ctx)
     for sig, what, rp_, key in tp["fails"]:
         ctx.fail(sig, what, rp_, key)
+    # ---- growth item 6: the kind-registry input and the kindsys loaders on TLC's registries (KindRegistry.tla); a panic or a
+    # hang while loading is C04's business (C04/kindregistry/<panic|timeout>/<class>), K1-K6 mismatches are observations
+    from checks import kindregistry_part
+    kp = kindregistry_part.run_part(ctx)
+    for sig, what, rp_, key in kp["fails"]:
+        ctx.fail(sig, what, rp_, key)
     cov = {
         "evaluations": len(order),
         "distinct_nontrivial": len(distinct),
@@ -837,13 +872,17 @@ def run(ctx):
         "outcomes": dict(outcome), "outcomes_per_family": {k: dict(v) for k, v in per_fam.items()},
         "outcomes_per_mutation_class": {k: dict(v) for k, v in per_class.items()},
         "outcomes_per_stage_or_language": {k: dict(v) for k, v in per_lang.items()},
-        "slowest_runs_ms": sorted(slow, key=lambda x: -x[1])[:5], "watchdog_ms": TIMEOUT_MS,
+        "slowest_runs_ms": sorted(slow, key=lambda x: -x[1])[:5], "watchdog_cpu_ms": TIMEOUT_MS, "confirmation_cpu_ms": CONFIRM_TIMEOUT_MS,
+        "slow_but_finite_runs": sorted(j for j, r_ in res.items() if r_.get("first_run_differed") == "timeout" and r_["outcome"] in ("files", "error"))[:10],
+        "timeouts_that_ended_in_a_stack_overflow_when_run_alone": sum(1 for r_ in res.values() if r_.get("first_run_differed") == "timeout" and r_["outcome"] == "crash"),
         "signatures": {s: len(v) for s, v in sig_info.items()},
         "timing": {"stage1_s": round(t1 - t0, 1), "stage2_s": round(t2 - t1, 1)},
         "binding_selftest": binding, "samples": samples,
-        "checker_cmd": "tlc MalformedMC; worker c04-run (subprocess, recover, watchdog); tlc MalformedTrace",
+        "checker_cmd": "tlc MalformedMC; worker c04-run (subprocess, recover, watchdog); tlc MalformedTrace; tlc TemplatesMC/TemplatesTrace; "
+                       "tlc KindRegistryMC/KindRegistryTrace",
     }
     cov.update(tp["coverage"])
+    cov.update(kp["coverage"])
     cov["states"] = sum(x["distinct"] for x in ctx.tlc_runs)
     cov["transitions"] = sum(x["generated"] for x in ctx.tlc_runs)
     return ctx.finish("exploration", cov, ASSUMPTIONS)
@@ -873,7 +912,7 @@ def selftest(ctx, res, order, by_cid):
         d = ctx.sub("selftest-" + name)
         cid, stage = good.split("|")
         rec = {"case": cid, "fam": by_cid[cid]["fam"], "class": by_cid[cid]["class"], "stage": stage,
-               "outcome": "error" if name == "good" else "panic", "ms": int(res[good].get("ms", 0))}
+               "outcome": "error" if name == "good" else "panic", "ms": int(res[good].get("cpu_ms", 0))}
         p = os.path.join(d, "trace.ndjson")
         open(p, "w").write(json.dumps(rec) + "\n")
         r = ctx.run_tlc("MalformedTrace", "MalformedTrace.cfg", workers=1, timeout=300, files={"trace.ndjson": p},
@@ -893,6 +932,13 @@ def replay(ctx, uni):
             if sig == rp["signature"]:
                 ctx.fail(sig, what, rp_, key)
         return ctx.finish("exploration", {"evaluations": 1, "distinct_nontrivial": 0, "rule": "replay of one recorded template set",
+                                          "samples": [{"replayed": rp["signature"]}]}, ASSUMPTIONS)
+    if isinstance(r, dict) and r.get("part") == "kindregistry":
+        from checks import kindregistry_part
+        for sig, what, rp_, key in kindregistry_part.run_part(ctx)["fails"]:      # the part is small: it is simply run again
+            if sig == rp["signature"]:
+                ctx.fail(sig, what, rp_, key)
+        return ctx.finish("exploration", {"evaluations": 1, "distinct_nontrivial": 0, "rule": "replay: the kind-registry part run again",
                                           "samples": [{"replayed": rp["signature"]}]}, ASSUMPTIONS)
     d = os.path.join(uni.dir, "replay")
     os.makedirs(d)
@@ -932,7 +978,9 @@ ASSUMPTIONS = [
     "Run loads the schemas before it looks at any language - every language separately with all output kinds and generation flags on; "
     "thorough adds the complementary flag setting (any_as_interface, skip_runtime and therefore no builders); builder-transformation cases "
     "run for the five languages that have builders",
-    "bounded time = 20 s per run (typical 30 ms), reported only when the same input times out twice; the worker's maximum goroutine stack "
+    "bounded time = 20 s of CPU time of the worker process per run (typical 30 ms; wall time only bounds a blocked run, at 300 s), so that the verdict "
+    "does not depend on the load of the machine; a run that uses up the budget is run again alone with 120 s and is a timeout only if that run is still "
+    "going (an unbounded recursion ends in the stack overflow it is, a slow finite run returns); the worker's maximum goroutine stack "
     "is lowered to 16 MB so that runaway recursion is observed as a stack overflow within a fraction of a second; two inputs per stack-overflow signature are confirmed under a 64 MB cap",
     "OpenAPI documents are run with validation on and (thorough: all, quick: half) with no_validate",
     "YAML configuration is written in YAML's JSON subset; remote inputs (url:) are not exercised (no network)",
